@@ -5,6 +5,7 @@ import (
 	"os"
 	"path/filepath"
 	"regexp"
+	"regexp/syntax"
 	"strings"
 	"unicode"
 )
@@ -372,4 +373,100 @@ func (g *Grammar) Matches(token string, alphabet string, maxLen int) ([]string, 
 	}
 	rec("")
 	return out, nil
+}
+
+// ---------- minimum text lengths ----------
+
+// TokenMinLen: the length (in bytes) of the shortest text the lexer rule matches.
+func (g *Grammar) TokenMinLen(token string) (int, bool) {
+	re, ok := g.Lexer[token]
+	if !ok {
+		return 0, false
+	}
+	rx, err := syntax.Parse(re, syntax.Perl)
+	if err != nil {
+		return 0, false
+	}
+	return regexMinLen(rx), true
+}
+
+func regexMinLen(re *syntax.Regexp) int {
+	switch re.Op {
+	case syntax.OpLiteral:
+		n := 0
+		for _, r := range re.Rune {
+			n += len(string(r))
+		}
+		return n
+	case syntax.OpCharClass, syntax.OpAnyCharNotNL, syntax.OpAnyChar:
+		return 1
+	case syntax.OpCapture:
+		return regexMinLen(re.Sub[0])
+	case syntax.OpConcat:
+		n := 0
+		for _, s := range re.Sub {
+			n += regexMinLen(s)
+		}
+		return n
+	case syntax.OpAlternate:
+		m := -1
+		for _, s := range re.Sub {
+			if k := regexMinLen(s); m < 0 || k < m {
+				m = k
+			}
+		}
+		if m < 0 {
+			return 0
+		}
+		return m
+	case syntax.OpPlus:
+		return regexMinLen(re.Sub[0])
+	case syntax.OpRepeat:
+		return re.Min * regexMinLen(re.Sub[0])
+	}
+	return 0 // star, quest, empty matches, anchors
+}
+
+// AnyTokenMinLen: the shortest text of any token the lexer can produce.
+func (g *Grammar) AnyTokenMinLen() int {
+	m := -1
+	for name := range g.Lexer {
+		if k, ok := g.TokenMinLen(name); ok && (m < 0 || k < m) {
+			m = k
+		}
+	}
+	if m < 0 {
+		return 0
+	}
+	return m
+}
+
+// AltMinTextLen: for the alternative labelled `label` (or the unlabelled rule named so), the
+// least length of the concatenated token texts of a context of that alternative, counting
+// only what ANTLR guarantees once the alternative has been predicted: the leading element
+// when it is a token (prediction looked at it), and nothing after it.
+func (g *Grammar) AltMinTextLen(label string) (int, bool) {
+	for _, rn := range g.Order {
+		r := g.Rules[rn]
+		for _, a := range r.Alts {
+			if !strings.EqualFold(a.Label, label) && !(a.Label == "" && len(r.Alts) == 1 && strings.EqualFold(r.Name, label)) {
+				continue
+			}
+			if len(a.Elems) == 0 {
+				return 0, true
+			}
+			first := a.Elems[0]
+			if !first.IsToken || first.Optional {
+				return 0, true
+			}
+			if k, ok := g.TokenMinLen(first.Ref); ok {
+				return k, true
+			}
+			if strings.HasPrefix(first.Ref, "'") {
+				return len(first.Ref) - 2, true
+			}
+			return 0, true
+		}
+	}
+	return 0, false
 }
